@@ -93,6 +93,7 @@ def main(argv=None):
     total = explore.Stats()
     part_cov = []
     status = 0
+    viol_found = False
     lines = []
     for p in parts:
         tp = time.time()
@@ -126,7 +127,7 @@ def main(argv=None):
             lines.append('VIOLATION property=%s replay=%s' % (prop, path))
             print('  violation (part %s, scenario %d, cost %d): %s' % (p.name, v[2], v[0], v[5].get('msg')))
         if st.n_viol:
-            status = max(status, 1)
+            viol_found = True
         # merge, keeping part-distinct digests apart
         st.nontrivial = set((p.name, d) for d in st.nontrivial)
         st.states = set((p.name, d) for d in st.states)
@@ -143,6 +144,10 @@ def main(argv=None):
             print('note: known finding %s was not triggered by this run' % fid)
     for ln in lines:
         print(ln)
+    if viol_found:
+        # a violation with a replay file outranks harness complaints (e.g. a change that leaks state between executions also
+        # makes the in-process determinism re-run differ); without any violation, harness errors give exit status 2
+        status = 1
     wall = time.time() - t0
     if not a.no_evidence and not a.part and status != 2:
         level = mod.LEVEL
